@@ -1,21 +1,28 @@
 #!/bin/sh
-# Offline setup: nothing to compile. Syntax-check every spec with SANY and import-check the harness.
-set -e
+# Offline setup: nothing to compile. Syntax-check the specs of every registered check with SANY
+# and import-check the harness modules of every registered check.
 HERE="$(cd "$(dirname "$0")/.." && pwd)"
 cd "$HERE"
 mkdir -p evidence replays
-rc=0
-for f in specs/*/*.tla; do
-  out=$(cd "$(dirname "$f")" && java -cp /opt/veriftools/tla/tla2tools.jar:/opt/veriftools/tla/CommunityModules-deps.jar tla2sany.SANY "$(basename "$f")" 2>&1) || true
-  if echo "$out" | grep -q "Fatal errors\|\*\*\* Errors\|Could not parse\|Semantic errors"; then
-    echo "SANY FAILED: $f"; echo "$out" | tail -20; rc=1
-  fi
-done
 PYTHONPATH="$HERE" PYTHONDONTWRITEBYTECODE=1 /venv/bin/python - <<'PY'
-import importlib, pkgutil, harness.props
-from harness import tlc, vloop, simnet, core
-for m in pkgutil.iter_modules(harness.props.__path__):
-    importlib.import_module('harness.props.' + m.name)
-print('harness import ok')
+import glob, importlib, json, os, subprocess, sys
+rc = 0
+from harness import tlc, vloop, simnet, core, simserver  # noqa
+for frag in sorted(glob.glob('manifest.d/C*.json')):
+    d = json.load(open(frag))
+    pid = d['property_id']
+    try:
+        importlib.import_module('harness.props.' + pid.lower())
+    except Exception as exc:
+        print(f'IMPORT FAILED for {pid}: {exc!r}')
+        rc = 1
+    sd = d.get('spec_dir')
+    for f in sorted(glob.glob(os.path.join(sd, '*.tla'))) if sd else []:
+        try:
+            tlc.sany(os.path.abspath(f))
+        except Exception as exc:
+            print(f'SANY FAILED: {f}\n{str(exc)[-1500:]}')
+            rc = 1
+print('setup ok' if rc == 0 else 'setup FAILED')
+sys.exit(rc)
 PY
-exit $rc
